@@ -222,6 +222,10 @@ pub struct Movie {
     /// a meta box placed directly in moov (not user data), before (true) or after (false) udta
     #[serde(default)]
     pub moov_meta: Option<(Meta, bool)>,
+    /// media duration written into the mdhd of tracks that have no table samples (fragmented
+    /// tracks): some muxers write 0 there, some the duration of the whole presentation
+    #[serde(default)]
+    pub frag_mdhd_dur: u32,
 }
 
 #[derive(Clone, Debug, Serialize, PartialEq, Eq)]
@@ -373,7 +377,7 @@ fn to_movie_ticks(media: u64, movie_ts: u32, track_ts: u32) -> u64 {
 
 fn trak_node(m: &Movie, ti: usize, pl: &Placement) -> Node {
     let t = &m.tracks[ti];
-    let media_dur: u64 = t.samples.iter().map(|s| s.dur as u64).sum();
+    let media_dur: u64 = if t.samples.is_empty() { m.frag_mdhd_dur as u64 } else { t.samples.iter().map(|s| s.dur as u64).sum() };
     let movie_dur = to_movie_ticks(media_dur, m.timescale, t.timescale);
     let (w, h) = t.codec.dims();
     let v_t = if movie_dur > u32::MAX as u64 { 1 } else { 0 };
